@@ -164,4 +164,94 @@ theorem leadsTo_of_variant_wf1 (R : VariantRule S fair P Q V) (hex : Exec S σ)
 
 end
 
+/-! ### Helpful-action rule (added for C21)
+
+Weak fairness of each fair action, where fair actions may be no-ops in some states (a periodic tick
+that finds nothing to do).  Instead of asking every fair step to make progress, the rule names one
+*helpful* fair action per state: it is enabled, taking it makes progress, and any other step either
+makes progress itself or leaves the variant and the helpful action unchanged. -/
+
+structure HelpfulRule (S : Sys State Action) (fair : Action → Prop) (P Q : State → Prop)
+    (V : State → Nat) (helpful : State → Action) : Prop where
+  /-- every step from `P ∧ ¬Q` keeps `P` or reaches `Q`; it lowers the variant, or leaves the
+      variant and the helpful action as they are -/
+  keep : ∀ s a s', P s → ¬ Q s → S.step s a = some s' →
+    (P s' ∨ Q s') ∧ (V s' < V s ∨ (V s' = V s ∧ helpful s' = helpful s))
+  /-- the helpful action is fair and enabled -/
+  enabled : ∀ s, P s → ¬ Q s → fair (helpful s) ∧ S.enabled (helpful s) s
+  /-- taking the helpful action establishes `Q` or lowers the variant -/
+  helps : ∀ s s', P s → ¬ Q s → S.step s (helpful s) = some s' → Q s' ∨ V s' < V s
+
+section
+variable {S : Sys State Action} {fair : Action → Prop} {P Q : State → Prop} {V : State → Nat}
+variable {helpful : State → Action} {σ : Nat → State}
+
+private theorem hstays (R : HelpfulRule S fair P Q V helpful) (hex : Exec S σ) (i : Nat)
+    (hP : P (σ i)) (hnQ : ∀ j, i ≤ j → ¬ Q (σ j)) :
+    ∀ d, P (σ (i + d)) ∧ (V (σ (i + d)) < V (σ i) ∨
+      (V (σ (i + d)) = V (σ i) ∧ helpful (σ (i + d)) = helpful (σ i))) := by
+  intro d
+  induction d with
+  | zero => exact ⟨hP, Or.inr ⟨rfl, rfl⟩⟩
+  | succ d ih =>
+    have hnq := hnQ (i + d) (Nat.le_add_right _ _)
+    have hnq' := hnQ (i + (d + 1)) (Nat.le_add_right _ _)
+    have e : i + (d + 1) = i + d + 1 := rfl
+    rcases hex (i + d) with h | ⟨a, h⟩
+    · rw [e, h]; exact ih
+    · have k := R.keep _ a _ ih.1 hnq h
+      rw [e]
+      refine ⟨?_, ?_⟩
+      · rcases k.1 with hp | hq
+        · exact hp
+        · exact absurd hq (by rw [← e]; exact hnq')
+      · rcases k.2 with hlt | ⟨heq, hh⟩
+        · rcases ih.2 with h2 | ⟨h2, _⟩
+          · exact Or.inl (Nat.lt_trans hlt h2)
+          · exact Or.inl (by rw [← h2]; exact hlt)
+        · rcases ih.2 with h2 | ⟨h2, h3⟩
+          · exact Or.inl (by rw [heq]; exact h2)
+          · exact Or.inr ⟨by rw [heq, h2], by rw [hh, h3]⟩
+
+/-- **Helpful-action rule**: under weak fairness of every fair action, `P ↝ Q`. -/
+theorem leadsTo_of_helpful (R : HelpfulRule S fair P Q V helpful) (hex : Exec S σ)
+    (hwf : WF1 S fair σ) : LeadsTo σ P Q := by
+  have main : ∀ n i, V (σ i) = n → P (σ i) → ∃ j, i ≤ j ∧ Q (σ j) := by
+    intro n
+    induction n using Nat.strongRecOn with
+    | _ n ih =>
+      intro i hv hP
+      apply Classical.byContradiction
+      intro hno
+      have hnQ : ∀ j, i ≤ j → ¬ Q (σ j) := fun j hj hq => hno ⟨j, hj, hq⟩
+      have hst := hstays R hex i hP hnQ
+      -- if the variant ever drops, the induction hypothesis applies
+      have hnodrop : ∀ d, ¬ V (σ (i + d)) < V (σ i) := by
+        intro d hlt
+        obtain ⟨k, hk, hq⟩ := ih _ (by rw [← hv]; exact hlt) (i + d) rfl (hst d).1
+        exact hno ⟨k, Nat.le_trans (Nat.le_add_right _ _) hk, hq⟩
+      have hsame : ∀ d, V (σ (i + d)) = V (σ i) ∧ helpful (σ (i + d)) = helpful (σ i) := by
+        intro d
+        rcases (hst d).2 with h | h
+        · exact absurd h (hnodrop d)
+        · exact h
+      -- so the helpful action of position `i` stays enabled forever
+      have hen : ∀ j, i ≤ j → S.enabled (helpful (σ i)) (σ j) := by
+        intro j hj
+        obtain ⟨d, rfl⟩ := Nat.exists_eq_add_of_le hj
+        have := (R.enabled _ (hst d).1 (hnQ _ hj)).2
+        rw [(hsame d).2] at this; exact this
+      obtain ⟨j, hij, hstep⟩ := hwf _ (R.enabled _ hP (hnQ i (Nat.le_refl _))).1 i hen
+      obtain ⟨d, rfl⟩ := Nat.exists_eq_add_of_le hij
+      rw [← (hsame d).2] at hstep
+      rcases R.helps _ _ (hst d).1 (hnQ _ hij) hstep with hq | hlt
+      · exact hnQ (i + d + 1) (Nat.le_trans hij (Nat.le_succ _)) hq
+      · have e : i + d + 1 = i + (d + 1) := rfl
+        rw [e, (hsame d).1] at hlt
+        exact hnodrop (d + 1) hlt
+  intro i hP
+  exact main _ i rfl hP
+
+end
+
 end GS.Temporal
